@@ -316,9 +316,10 @@ def srcRow (m : Src) (s a : Nat) : List XRat := rowOf m.T s a m.S
 def copyDense (m : Src) : Option St :=
   if (discGuard .dense).eval m.disc then none
   else if (List.range m.A).all (fun a => (List.range m.S).all (fun s => isProbLoop (srcRow m s a))) then
+    let T' := mk3 m.A m.S m.S (fun a s s1 => get3 m.T s a s1)      -- built once, shared by the reward loop
     some { S := m.S, A := m.A, O := 0, disc := m.disc,
-           T := mk3 m.A m.S m.S (fun a s s1 => get3 m.T s a s1),
-           R := mk2 m.S m.A (fun s a => expReward m.S m.R (mk3 m.A m.S m.S (fun a s s1 => get3 m.T s a s1)) s a),
+           T := T',
+           R := mk2 m.S m.A (fun s a => expReward m.S m.R T' s a),
            Om := [] }
   else none
 
